@@ -97,6 +97,7 @@ type effIndex struct {
 	vars    map[string]bool   // pkg:v package-level variables
 	imports map[string]bool   // import names (any file)
 	byDisp  map[string]*efunc
+	fieldT  map[string]ast.Expr // pkg:T.f -> declared type of field f (embedded fields by their type name)
 }
 
 var basicTypes = map[string]bool{"byte": true, "int": true, "int8": true, "int16": true, "int32": true, "int64": true,
@@ -105,7 +106,7 @@ var basicTypes = map[string]bool{"byte": true, "int": true, "int8": true, "int16
 
 func buildEffIndex(repo string) (*effIndex, error) {
 	ix := &effIndex{funcs: map[string]*efunc{}, types: map[string]bool{}, ifaces: map[string]bool{}, vars: map[string]bool{},
-		imports: map[string]bool{}, byDisp: map[string]*efunc{}}
+		imports: map[string]bool{}, byDisp: map[string]*efunc{}, fieldT: map[string]ast.Expr{}}
 	for _, d := range []struct{ dir, pkg string }{{"", "crypto"}, {"hash", "hash"}} {
 		_, files, err := parseDir(repo, d.dir)
 		if err != nil {
@@ -139,6 +140,25 @@ func buildEffIndex(repo string) (*effIndex, error) {
 							ix.types[d.pkg+":"+s.Name.Name] = true
 							if _, ok := s.Type.(*ast.InterfaceType); ok {
 								ix.ifaces[d.pkg+":"+s.Name.Name] = true
+							}
+							if st, ok := s.Type.(*ast.StructType); ok {
+								for _, f := range st.Fields.List {
+									for _, n := range f.Names {
+										ix.fieldT[d.pkg+":"+s.Name.Name+"."+n.Name] = f.Type
+									}
+									if len(f.Names) == 0 { // embedded
+										t := f.Type
+										if se, ok := t.(*ast.StarExpr); ok {
+											t = se.X
+										}
+										switch e := t.(type) {
+										case *ast.Ident:
+											ix.fieldT[d.pkg+":"+s.Name.Name+"."+e.Name] = f.Type
+										case *ast.SelectorExpr:
+											ix.fieldT[d.pkg+":"+s.Name.Name+"."+e.Sel.Name] = f.Type
+										}
+									}
+								}
 							}
 						case *ast.ValueSpec:
 							if x.Tok == token.VAR {
@@ -264,6 +284,19 @@ func (w *effWalker) typeOf(e ast.Expr) string {
 	case *ast.CompositeLit:
 		if x.Type != nil {
 			return w.declType(x.Type)
+		}
+	case *ast.SelectorExpr:
+		if t := w.typeOf(x.X); t != "" && !strings.HasPrefix(t, "ext:") {
+			for _, pk := range []string{w.fn.pkg, "crypto", "hash"} {
+				if ft, ok := w.ix.fieldT[pk+":"+t+"."+x.Sel.Name]; ok {
+					return w.declType(ft)
+				}
+			}
+		}
+	case *ast.CallExpr:
+		// x.Clone() has the type of x
+		if se, ok := x.Fun.(*ast.SelectorExpr); ok && se.Sel.Name == "Clone" && len(x.Args) == 0 {
+			return w.typeOf(se.X)
 		}
 	}
 	return ""
